@@ -5,7 +5,7 @@
    replayed on the real pre-fix code (notes/C13.md).  Also: witnesses showing that the
    hypotheses of kube_view_exact are needed. *)
 From Coq Require Import List ZArith Bool Lia.
-From GZ Require Import C13.Model C13.Proofs C13.ProofsB C13.ProofsC C13.ProofsD C13.ProofsF C13.ProofsG C13.ProofsH C13.ProofsI C13.ProofsK.
+From GZ Require Import C13.Model C13.Proofs C13.ProofsB C13.ProofsC C13.ProofsD C13.ProofsF C13.ProofsG C13.ProofsH C13.ProofsI C13.ProofsK C13.ProofsL.
 Import ListNotations.
 Open Scope Z_scope.
 
@@ -381,3 +381,19 @@ Theorem kube_entries_counted_refuted :
   kend s = [1; 2; 3; 4] /\ klast s = [1; 2; 3; 4] /\
   kend (k_update (mkObj 2 [[1; 2]; [1; 2]]) (k_update (mkObj 1 [[1; 2; 3; 4]]) kinit)) = [1; 2].
 Proof. vm_compute. repeat split. Qed.
+
+(* Seeded change C13-10: cluster.reload starts one goroutine per watched key, but the closure reads
+   the loop variable after the loop has moved on (`k := key` dropped, go 1.21 loop semantics):
+   every goroutine loads and watches the LAST key; the other keys are neither snapshotted nor
+   watched again.  Keys 1 and 2 as in Props.ex_reload_two_keys: key 2 (the last) is restored -
+   twice -, key 1 never learns put 12=20 made during the outage: its stream position stays 1 of
+   2 and its registry copy is not etcd's store. *)
+Theorem reload_last_key_refuted :
+  let hs := fun k => if k =? 1 then [BPut 11 10; BPut 12 20] else [BPut 21 30] in
+  let snaps := fun k => if k =? 1 then [(11, 10); (12, 20)] else [(21, 30)] in
+  let calls := fun k => if k =? 1 then [LAdd 12 20] else [LAdd 21 30] in
+  let c := [(1, [GLoad 0 [] []; GRestart 0; GResp 0 [BPut 11 10]]); (2, [GLoad 0 [] []; GRestart 0])] in
+  map (fun kd => (fst kd, final_pos_g 0 0 (snd kd), truth (map ev_of_g (snd kd)))) (reload_last_key hs snaps calls c) =
+    [(1, (1%nat, 1%nat), [(11, 10)]); (2, (1%nat, 1%nat), [(21, 30)])] /\
+  etcd_state (hs 1) 2 = [(12, 20); (11, 10)].
+Proof. split; reflexivity. Qed.
